@@ -128,13 +128,20 @@
      override in t, else in the nearest active task below t), or the initial value when there is none.
    C07_values_restored_rtree0: at every flush point and when the outermost call has returned every scoped variable is
      back to its initial value.
+   C07_contexts_nest_lifo_rtree0 (T3), C07_saved_values_rtree0, C07_layer_owners_await_rtree0: the LIFO step theorem
+     (a read step leaves [layers] unchanged), the save-and-restore invariant and "layer owners await the running task"
+     for rtree0, by the same transport (layers, ci_old and dependency lists are untouched by the erasure).
    C07_async_eq_seq_rtree0: value() = Seq.eval (erase p) (the C01 equation; reads do not influence the result in this class).
    C07_rtree0_hypotheses_are_met: a parent with two nested overrides reads 0 / 20, its child reads the parent's 20,
      its own 30, blocks on a batch item, reads 30 again after the flush, 20 after its block; the parent reads 20, 10, 0.
    NOT PROVED: programs that BRANCH on the values read (an rtree class with a sequential evaluator with dynamic
-     scoping, evalV / resolve, is not started); reads combined with synchronous calls (stree); T3 (LIFO) and the
-     saved-values invariant are not restated for rtree0 (they follow the same way: layers and ci_old are untouched by
-     the erasure).  These remain covered by the correspondence harness + monitors.
+     scoping, evalV / resolve, is not started); reads combined with synchronous calls are only partly done:
+     for MachineC07R.rstree0 (stree + non-branching reads) the erased program is an stree program (stree_erase), the class
+     invariant with FValue frames (sh_run) and the stuttering simulation (run_est_s, sim_run_s) are proved, and
+     C07_async_eq_seq_rstree0 (value() = MachineC01S.evals (erase p)) is exported; the transport of the four stree
+     theorems (reads_see_enclosing_overrides / reads_innermost / values_restored / layers_are_the_active_contexts
+     _stree -> _rstree0; needs wns of the erased program from a wnrs predicate and fvals (map eframe fr) = fvals fr) and a
+     non-vacuity example with a callee reading its caller's override are NOT done.  These remain covered by the correspondence harness + monitors.
 
    ---------------------------------------------------------------------------------------------------------
    DAGs (end of this file; proofs/MachineC07D.v): no general theorem - shared futures stay outside the proved classes.
@@ -574,6 +581,7 @@ Theorem C07_shared_task_saves_at_every_resume :
 Proof. exact c07d_saved_value_follows_the_last_resume. Qed.
 Print Assumptions C07_shared_task_saves_at_every_resume.
 
+
 (* ==== the stree theorems WITHOUT an assumption about exceptions unwinding (proofs/MachineNoUnwind.v, MachineGuardFormsS.v) ====
    [no_unwind P n (start h s1)] is replaced by "the MAX_TASK_STACK_SIZE guard has not fired before step n"; also with
    synchronous calls FutureIsAlreadyComputed is proved unreachable (stree_no_unwind_iff_guard_silent), so the guard's
@@ -682,3 +690,48 @@ Theorem C07_saved_values_stree_guard : forall P, pointwise P -> forall p, stree 
   end.
 Proof. exact saved_values_stree_guard. Qed.
 Print Assumptions C07_saved_values_stree_guard.
+
+
+(* T3 for rtree0 *)
+Theorem C07_contexts_nest_lifo_rtree0 : forall P, pointwise P -> forall p, rtree0 p -> wnr [] p -> forall n,
+  let h := fst (create [] (FTask p) (st0 P)) in
+  let s1 := snd (create [] (FTask p) (st0 P)) in
+  no_unwind P n (start h s1) ->
+  exists l, layers (c_st (run P (S n) (start h s1))) = layers (c_st (run P n (start h s1))) ++ l \/
+            layers (c_st (run P n (start h s1))) = layers (c_st (run P (S n) (start h s1))) ++ l.
+Proof. exact contexts_nest_lifo_rtree0. Qed.
+Print Assumptions C07_contexts_nest_lifo_rtree0.
+
+Theorem C07_saved_values_rtree0 : forall P, pointwise P -> forall p, rtree0 p -> wnr [] p -> forall n,
+  let h := fst (create [] (FTask p) (st0 P)) in
+  let s1 := snd (create [] (FTask p) (st0 P)) in
+  no_unwind P n (start h s1) ->
+  match c_mode (run P n (start h s1)) with
+  | MUnwind _ | MStuck | MDone _ => True
+  | _ =>
+    let s := c_st (run P n (start h s1)) in
+    let init := fun x => var_get x s1 in
+    (forall x, var_get x s = apply_l init (layers s) x) /\
+    (forall pre t cid var v post, layers s = pre ++ (t, COverride cid var v) :: post ->
+       ci_old (ci_get (t, cid) s) = apply_l init pre var) /\
+    NoDup (map lkey (layers s))
+  end.
+Proof. exact saved_values_rtree0. Qed.
+Print Assumptions C07_saved_values_rtree0.
+
+Theorem C07_layer_owners_await_rtree0 : forall P p n t q, pointwise P -> rtree0 p ->
+  let h := fst (create [] (FTask p) (st0 P)) in
+  let s1 := snd (create [] (FTask p) (st0 P)) in
+  no_unwind P n (start h s1) -> c_mode (run P n (start h s1)) = MRun t q ->
+  let s := c_st (run P n (start h s1)) in
+  forall rest, tasks s = t :: rest -> forall u c, In (u, c) (lower s rest) -> reach s u t.
+Proof. exact layer_owners_await_rtree0. Qed.
+Print Assumptions C07_layer_owners_await_rtree0.
+
+(* synchronous calls + non-branching reads: the C01S value equation (the C07 stree theorems are not yet transported) *)
+Theorem C07_async_eq_seq_rstree0 : forall P p n o, pointwise P -> rstree0 p ->
+  let h := fst (create [] (FTask p) (st0 P)) in
+  let s1 := snd (create [] (FTask p) (st0 P)) in
+  no_unwind P n (start h s1) -> c_mode (run P n (start h s1)) = MDone o -> o = evals (erase p).
+Proof. exact async_eq_seq_rstree0. Qed.
+Print Assumptions C07_async_eq_seq_rstree0.
